@@ -25,6 +25,7 @@ Section Grid.
     end.
 
   (* the code as written.  Python:
+       if not all(len(i) for i in q): return [] # empty axis, empty product
        w = [[] for i in range(len(q[-1]))]
        for j in range(len(q)-1,-1,-1):
          for k in range(len(q[j])):
@@ -61,11 +62,15 @@ Section Grid.
         end
     end.
 
-  (* None = IndexError (q[-1] on an empty list) *)
+  (* if not all(len(i) for i in q): return []     -- the guard runs first; with no axis at all it passes and
+     q[-1] then raises IndexError (None) *)
   Definition gridpts_impl (q : list (list A)) : option (list (list A)) :=
     match rev q with
     | [] => None
-    | last :: _ => Some (map (@rev A) (grid_loop (rev q) (repeat [] (length last))))
+    | last :: _ =>
+        if forallb (fun ax => negb (Nat.eqb (length ax) 0)) q
+        then Some (map (@rev A) (grid_loop (rev q) (repeat [] (length last))))
+        else Some []                                             (* empty axis, empty product *)
     end.
 
   (* position of the point with per-axis indices [js] in [gridpts q] (mixed radix, last axis fastest) *)
